@@ -17,7 +17,8 @@ Record tcore := {
   ts_can_decrypt : bool; ts_client_hello_seen : bool; ts_server_cc : bool; ts_client_cc : bool;
   ts_client_random : bytes; ts_version : version_attr;
   ts_extensions : list (bytes * bytes); ts_compression : Z;
-  ts_decryptor : option decryptor }.
+  ts_decryptor : option decryptor;
+  ts_hs_client : bytes; ts_hs_server : bytes }.      (* handshake_buffer: decrypted TLS 1.3 handshake bytes not yet consumed as whole messages *)
 
 (* a Session: endpoint identity (fixed by the first packet), the buffered packets with the duplicate memory, and the core *)
 Record tsession := {
@@ -35,9 +36,14 @@ Definition upd (s : tcore) (can ch scc ccc : bool) (cr : bytes) (v : version_att
            (d : option decryptor) : tcore :=
   {| ts_can_decrypt := can; ts_client_hello_seen := ch; ts_server_cc := scc; ts_client_cc := ccc;
      ts_client_random := cr; ts_version := v; ts_extensions := ext; ts_compression := comp;
-     ts_decryptor := d |}.
+     ts_decryptor := d; ts_hs_client := ts_hs_client s; ts_hs_server := ts_hs_server s |}.
 Definition set_can (s : tcore) (b : bool) := upd s b (ts_client_hello_seen s) (ts_server_cc s) (ts_client_cc s) (ts_client_random s) (ts_version s) (ts_extensions s) (ts_compression s) (ts_decryptor s).
 Definition set_dec (s : tcore) (d : option decryptor) := upd s (ts_can_decrypt s) (ts_client_hello_seen s) (ts_server_cc s) (ts_client_cc s) (ts_client_random s) (ts_version s) (ts_extensions s) (ts_compression s) d.
+Definition set_hs (s : tcore) (isserver : bool) (b : bytes) : tcore :=
+  {| ts_can_decrypt := ts_can_decrypt s; ts_client_hello_seen := ts_client_hello_seen s; ts_server_cc := ts_server_cc s; ts_client_cc := ts_client_cc s;
+     ts_client_random := ts_client_random s; ts_version := ts_version s; ts_extensions := ts_extensions s; ts_compression := ts_compression s;
+     ts_decryptor := ts_decryptor s;
+     ts_hs_client := if isserver then ts_hs_client s else b; ts_hs_server := if isserver then b else ts_hs_server s |}.
 Section Sess.
 Variable C : Crypto.
 Variable suite_table : list (Z * String.string).
@@ -153,17 +159,21 @@ Definition handle_alert (s : tcore) (alert_level : Z) : tcore :=
 Fixpoint strip_zeros_rev (l : bytes) : bytes := match l with 0 :: r => strip_zeros_rev r | _ => l end.
 Definition strip_padding (p : bytes) : bytes := rev (strip_zeros_rev (rev p)).
 
-Fixpoint hs13_walk (fuel : nat) (d : decryptor) (pt : bytes) (i : Z) (isserver : bool) : result decryptor :=
-  if i <? len pt then
-    match fuel with
-    | O => Exn OutOfFuel
-    | S f =>
-        do t <- index pt i;
-        let l := from_be (slice pt (i + 1) (i + 4)) in
-        do d' <- (if t =? 20 then update_keys d isserver else Ok d);
-        hs13_walk f d' pt (i + l + 4) isserver
-    end
-  else Ok d.
+(* handle_decrypted_tls_13_handshake_record: the record's bytes are appended to the direction's buffer and whole messages are
+   consumed from its front; a Finished (type 20) switches the direction to its application keys.  When update_keys raises, the
+   message is already consumed and the exception ends the loop (caught by the caller): (decryptor, buffer left) *)
+Fixpoint hs13_consume (fuel : nat) (d : decryptor) (buf : bytes) (isserver : bool) : decryptor * bytes :=
+  if len buf <? 4 then (d, buf) else
+  let l := from_be (slice buf 1 4) in
+  if len buf <? 4 + l then (d, buf) else
+  match fuel with
+  | O => (d, buf)
+  | S f =>
+      let t := nth 0 buf 0 in
+      let rest := slice_from buf (4 + l) in
+      if t =? 20 then match update_keys d isserver with Ok d' => hs13_consume f d' rest isserver | Exn _ => (d, rest) end
+      else hs13_consume f d rest isserver
+  end.
 
 Definition handle_tls_13_application_record (s : tcore) (d : decryptor) (r : tls_record) (isserver : bool) : tcore * list traffic_entry :=
   match decrypt C d r isserver with
@@ -174,12 +184,9 @@ Definition handle_tls_13_application_record (s : tcore) (d : decryptor) (r : tls
       | [] => (s', [])
       | t :: body_rev =>
           if t =? 22 then
-            (* update_keys can only fail on its first call for a side (a missing key), so nothing is half-done *)
-            let body := rev body_rev in
-            match hs13_walk (S (length body)) d' body 0 isserver with
-            | Ok d'' => (set_dec s' (Some d''), [])
-            | Exn _ => (s', [])
-            end
+            let buf := (if isserver then ts_hs_server s else ts_hs_client s) ++ rev body_rev in
+            let '(d'', remaining) := hs13_consume (S (length buf)) d' buf isserver in
+            (set_hs (set_dec s' (Some d'')) isserver remaining, [])
           else if t =? 23 then (s', [ {| te_data := Some (rev body_rev); te_record := r; te_isserver := isserver; te_meta := false |} ])
           else (s', [])
       end
@@ -267,7 +274,7 @@ Definition session_handle_packet (s : tsession) (p : packet) : tsession :=
 Definition core0 : tcore :=
   {| ts_can_decrypt := false; ts_client_hello_seen := false; ts_server_cc := false; ts_client_cc := false;
      ts_client_random := []; ts_version := VUndefined; ts_extensions := []; ts_compression := 0;
-     ts_decryptor := None |}.
+     ts_decryptor := None; ts_hs_client := []; ts_hs_server := [] |}.
 
 (* Session.__init__ + set_client_and_server_ports + the first handle_packet *)
 Definition new_session (p : packet) (server_ports : list Z) : tsession :=
